@@ -15,7 +15,9 @@ META = {
               "(rotation V rationally parametrised, eigenvalues e1<e2(<e3) symbolic with a gap, L lower-triangular symbolic); neig in "
               "1..n, modes lowest/uppest/uppermost in mixed letter case; methods exacteig and custom_exacteig; dense-wrapped and "
               "matrix-free operators; svd of planted 2x2, 3x2 and 2x3 matrices U diag(sigma) V^T (the factor of the larger side fixed at a rational rotation), k in 1..2, both modes; svd of Hermitian-FLAGGED operators with an indefinite planted spectrum V diag(+-sigma) V^T (all sign patterns, 2x2; 3x3 thorough)",
-    "outside": "davidson (iterative; its residual test is a convergence statement), clustered spectra accuracy, n>3, complex "
+    "outside": "davidson beyond 2x2 / random starts (for 2x2 with v_init='eye': the returned pair meets the residual test when the "
+               "iteration stops on a proper subspace - an exactly invariant start subspace such as a diagonal A then legitimately ends "
+               "it, so extremeness is claimed only after the whole space has been searched, where the result is exact), clustered spectra accuracy, n>3, complex "
                "(thorough tier only for n=2), rounding",
     "assumptions": ["torch.linalg.eigh / cholesky are replaced by their contracts: they return the planted factors after z3 has "
                     "proved that the argument equals the planted product (eigenvalues distinct, so eigenvectors are unique up to sign)",
@@ -23,9 +25,9 @@ META = {
 }
 
 
-def _planted(cx, n, withM, thirds=False):
+def _planted(cx, n, withM, thirds=False, fixed=False):
     if n == 2:
-        t = cx.sym("t", ())
+        t = cx.const(torch.tensor(0.5, dtype=torch.float64)) if fixed else cx.sym("t", ())
         V = rot2(t)
     else:
         q = cx.sym("q", (4,))
@@ -37,7 +39,10 @@ def _planted(cx, n, withM, thirds=False):
     cx.assume(torch.all(e.abs() < 10))
     A0 = torch.matmul(V * e.unsqueeze(-2), V.transpose(-2, -1))
     if withM:
-        L = lower(cx.sym("l", (n, n)), cx.sym("ld", (n,), positive=True, lo=0.5, hi=2))
+        if fixed:
+            L = cx.const(torch.tensor([[1.0, 0.0], [0.5, 2.0]], dtype=torch.float64))
+        else:
+            L = lower(cx.sym("l", (n, n)), cx.sym("ld", (n,), positive=True, lo=0.5, hi=2))
         M = torch.matmul(L, L.transpose(-2, -1))
         A = torch.matmul(L, torch.matmul(A0, L.transpose(-2, -1)))
         cx.plant("cholesky", M, L)
@@ -66,6 +71,41 @@ def eig(cx, n=2, neig=2, mode="lowest", method="exacteig", withM=False, opkind="
     Mv = torch.matmul(M, vec) if withM else vec
     cx.claim_eq("A X = M X diag(E)", torch.matmul(A, vec), Mv * ev.unsqueeze(-2), observe=False)
     cx.claim_eq("X^H M X = I", torch.matmul(vec.transpose(-2, -1), Mv), torch.eye(neig, dtype=torch.float64))
+    return "ok"
+
+
+def dav(cx, neig=1, mode="lowest", withM=False, min_eps=1e-6, max_niter=5, fixed=False):
+    """davidson on a planted 2x2 problem, deterministic start v_init='eye'.  In exact arithmetic the iteration either stops on its
+    residual test with a proper subspace (claims: residual below min_eps for the RETURNED pair, M-normalisation) or exhausts
+    the whole space (claims: exact eigenpairs, the requested extreme ones)."""
+    n = 2
+    A, M, e, V, X = _planted(cx, n, withM, fixed=fixed)
+    Aop = make_classes()["mvonly"](A, is_hermitian=True)
+    Mop = LinearOperator.m(M, is_hermitian=True) if withM else None
+    napply = []
+    mm0 = Aop._mv
+
+    def counting_mv(x):
+        napply.append(1)
+        return mm0(x)
+    Aop._mv = counting_mv
+    with torch.no_grad():
+        ev, vec = symeig(Aop, neig=neig, mode=mode, M=Mop, method="davidson", v_init="eye", min_eps=min_eps,
+                         max_niter=max_niter)
+    cx.claim_true("shapes", tuple(ev.shape) == (neig,) and tuple(vec.shape) == (n, neig),
+                  detail="%s %s" % (tuple(ev.shape), tuple(vec.shape)))
+    Mv = torch.matmul(M, vec) if withM else vec
+    cx.claim_eq("X^H M X = I", torch.matmul(vec.transpose(-2, -1), Mv), torch.eye(neig, dtype=torch.float64), observe=False)
+    resid = torch.matmul(A, vec) - Mv * ev.unsqueeze(-2)
+    full = len(napply) >= n          # A has been applied to a basis of the whole space
+    cx.note("columns A was applied to: %d" % len(napply))
+    if full:
+        want = e[:neig] if mode.lower() == "lowest" else e[n - neig:]
+        cx.claim_eq("whole space searched: eigenvalues are the requested extreme ones", ev, want)
+        cx.claim_eq("whole space searched: A X = M X diag(E)", resid, torch.zeros_like(resid), observe=False)
+    else:
+        cx.claim("stopped on a proper subspace => the returned pair meets the residual test",
+                 torch.all(resid.abs() < cx.const(torch.tensor(min_eps, dtype=torch.float64))))
     return "ok"
 
 
@@ -148,6 +188,12 @@ def configs(tier):
         for k, mode in ((None, "uppest"), (1, "lowest"), (1, "uppest"), (2, "lowest")):
             add("svd/%dx%d/k%s/%s" % (shape[0], shape[1], k, mode), sv, shape=shape, k=k, mode=mode)
     add("svd/3x2/k1/lowest/custom_exacteig", sv, shape=(3, 2), k=1, mode="lowest", method="custom_exacteig")
+    # davidson (bounded: 2x2, deterministic start): returned pair vs. its own stopping rule, exact once the space is exhausted
+    for withM in (False, True):
+        for neig, mode in ((1, "lowest"), (1, "uppest"), (2, "lowest")):
+            # neig=1 needs two iterations (nested roots): rotation and overlap factor fixed at rationals, eigenvalues symbolic
+            add("davidson/eye/%s/n2/neig%d/%s%s" % ("AM" if withM else "A", neig, mode, "/fixedVL" if neig == 1 else ""), dav,
+                neig=neig, mode=mode, withM=withM, fixed=(neig == 1), opts={"budget_s": 240, "timeout_ms": 20000})
     # Hermitian-flagged operators with an indefinite spectrum: singular values = magnitudes of the eigenvalues
     for signs in ((-1, 1), (1, -1), (-1, -1)):
         for k, mode in ((1, "uppest"), (1, "lowest"), (None, "uppest")):
